@@ -901,3 +901,11 @@ package actor
 //@   trusted
 //@   modifies heap except private, log, loglen
 //@   ensures result != nil
+
+// The restart budget an actor is spawned with is the one that was asked for
+// (every value >= 0, zero included).
+//@ func WithMaxRestarts$1(opts)
+//@   props C06
+//@   requires opts != nil
+//@   modifies opts.MaxRestarts
+//@   ensures[C06.config.budget-is-the-value-asked-for] n >= 0 ==> opts.MaxRestarts == n
